@@ -502,12 +502,33 @@ func runC18Queue(c *mon.Case) {
 	s := n + 1
 	rt := time.Duration(200+rng.Intn(2000)) * time.Microsecond
 	q := gbn.VerifNewQueueWith(s, nil, gbn.WithStaticResendTimeout(rt), gbn.WithHandshakeTimeout(rt))
+	// A third goroutine plays the application's timeout setters (write lock
+	// of the timeout manager) while resend and its sync wait read from it.
+	tm := q.TimeoutManager()
 	runFor := time.Duration(80+rng.Intn(80)) * time.Millisecond
 	seedS, seedR := rng.Int63(), rng.Int63()
 	var progress, adds, resends, acks atomic.Int64
 	stop := make(chan struct{})
 	var wg sync.WaitGroup
-	wg.Add(2)
+	wg.Add(3)
+	go func() { // application role: the timeout setters and getters
+		defer wg.Done()
+		for i := 0; ; i++ {
+			select {
+			case <-stop:
+				return
+			default:
+			}
+			tm.SetSendTimeout(time.Duration(i%7) * time.Millisecond)
+			tm.SetRecvTimeout(time.Duration(i%5) * time.Millisecond)
+			_ = tm.GetSendTimeout()
+			_ = tm.GetRecvTimeout()
+			progress.Add(1)
+			if i%64 == 0 {
+				time.Sleep(20 * time.Microsecond)
+			}
+		}
+	}()
 	go func() { // send-loop role
 		defer wg.Done()
 		r := rand.New(rand.NewSource(seedS))
@@ -519,7 +540,8 @@ func runC18Queue(c *mon.Case) {
 			}
 			_, _, size := q.State()
 			if size < n && r.Intn(4) != 0 {
-				q.Add()
+				sq := q.Add()
+				tm.Sent(&gbn.PacketData{Seq: sq}, false)
 				adds.Add(1)
 			} else {
 				_ = q.Resend()
@@ -550,8 +572,10 @@ func runC18Queue(c *mon.Case) {
 				seq = uint8(r.Intn(int(s)))
 			}
 			if r.Intn(5) == 0 {
+				tm.Received(&gbn.PacketNACK{Seq: seq})
 				q.NACK(seq)
 			} else {
+				tm.Received(&gbn.PacketACK{Seq: seq})
 				q.ACK(seq)
 			}
 			acks.Add(1)
@@ -563,7 +587,7 @@ func runC18Queue(c *mon.Case) {
 	}()
 	time.Sleep(runFor)
 	close(stop)
-	if !stuckCheck(c, "queue stress (send-loop role: addPacket/resend, receive-loop role: processACK/processNACK)", &wg, &progress) {
+	if !stuckCheck(c, "queue stress (send-loop role: addPacket/Sent/resend, receive-loop role: Received/processACK/processNACK, application role: timeout setters)", &wg, &progress) {
 		return
 	}
 	base, top, size := q.State()
